@@ -12,3 +12,85 @@ CHECKS = {
         note="floats modelled as reals; time.time replaced by a symbolic non-decreasing clock; z3 trusted"),
 }
 NOT_APPLICABLE = {p: _WIP for p in ["C%02d" % i for i in range(1, 21)]}
+
+_HIST_NOTE = ("exact-decimal model (inputs bounded so that Decimal's 28 digit context is not exceeded, true divisions as "
+              "exact rationals); order amounts of multi-step histories from a solver-chosen set; uuid4/max/min rebinding; "
+              "z3 trusted; counterexamples are replayed on the unmodified code with ordinary Decimals")
+_HIST_TECH = ("symbolic execution of the real Exchange/OrderManager/AccountBalances/LoanManager code on z3-backed exact "
+              "decimal proxies over bounded operation histories; obligations discharged per path by z3 (LIA)")
+
+
+def _hist(text):
+    return dict(level="model_checking", ref="DESIGN.md §5", technique=_HIST_TECH, text=text, note=_HIST_NOTE)
+
+
+CHECKS.update({
+    "C01": _hist("For every value of the symbolic balances, prices, OHLCV within the stated plans (one or two orders of "
+                 "every class, up to two bars, cancels, margin loans with auto-borrow/auto-repay) z3 discharges, after "
+                 "every API call and every bar, total == initial + signed fills - fees - paid interest per symbol, with "
+                 "fills/fees/interest read back through get_orders()/get_loans(). Bounded: nothing is claimed for "
+                 "deeper histories."),
+    "C02": _hist("Same bounded histories; obligations available >= 0, hold >= 0, borrowed >= 0, total = a + h - b and "
+                 "borrowed == principal of open loans after every step, for all symbolic inputs; overdrawing fills / "
+                 "repayments would show up as a satisfiable negative balance."),
+    "C05": _hist("Same bounded histories with an order-event subscriber: monotone fills, filled <= amount, closed iff "
+                 "completely filled / cancelled / fill-or-kill, closed orders frozen, cancel of a closed order fails, "
+                 "every listing/filter exact, exactly one event per acceptance / fill / closure in time order whose "
+                 "last equals the order state; plus an inductive step over the open-order container re-indexing."),
+    "C06": _hist("Same bounded histories against an independent reservation model: acceptance reserves exactly the "
+                 "reservation, holds equal the sum of remaining reservations of open orders after every step, nothing "
+                 "on hold when no order is open, hold <= balance, and (without borrowing) a request is accepted iff "
+                 "available funds cover its reservation - the solver covers the exact boundary because balances are "
+                 "symbolic."),
+    "C07": _hist("Every API call of the bounded histories is wrapped in a snapshot; on every path where the call raises "
+                 "z3 must show balances, holds, borrowed amounts, open orders (and their state) and open loans "
+                 "unchanged. Rejections reached: insufficient funds, margin rule, NoLoans, second loan failing with "
+                 "rollback, repay of closed loan, cancel of closed order."),
+    "C08": _hist("Same bounded histories incl. VolumeShareImpact with solver-chosen volumes (0, off-grid share): base "
+                 "filled per bar <= volume share, fill-or-kill orders needing more than what is left get nothing, every "
+                 "filled base/quote/fee and every reported available/hold/borrowed is a multiple of the precision."),
+})
+_DISP_NOTE = "real asyncio; event/job instants as z3 integers (microseconds); logging disabled; z3 trusted; replayed concretely"
+CHECKS.update({
+    "C03": dict(level="model_checking", ref="DESIGN.md §5 C03",
+                technique="symbolic execution of the whole stack (Exchange + BacktestingDispatcher on asyncio) with symbolic "
+                          "bar timestamps and max_concurrent; 2-safety by self-composition against max_concurrent=50",
+                text="For every max_concurrent in 1..4, every relative order/ties of the bar timestamps of 1-3 pairs x 2 "
+                     "bars, 3 registration orders and 0-2 suspension points, z3 shows every fill's timestamp is later "
+                     "than the simulated time its order was submitted at; for non-suspending handlers the fill history, "
+                     "final orders and balances equal those of the same run with max_concurrent=50 and of a repeated run.",
+                note=_DISP_NOTE + "; hash-seed clause outside the claim"),
+    "C12": dict(level="model_checking", ref="DESIGN.md §5 C12",
+                technique="symbolic execution of the real BacktestingDispatcher on asyncio with symbolic event timestamps and "
+                          "max_concurrent; trace obligations discharged by z3",
+                text="All weak orderings of the timestamps of 2x2, 3x2, 2x3 sources x events (plus a derived source), "
+                     "max_concurrent 1..3, 6 handler suspension/raise profiles: exactly-once delivery per subscribed handler, "
+                     "clock == event time in handlers, stage order pre -> handlers in subscription order -> post, global "
+                     "non-decreasing time order, no overlap of events with different times, monotone clock.",
+                note=_DISP_NOTE),
+    "C13": dict(level="model_checking", ref="DESIGN.md §5 C13",
+                technique="symbolic execution of the real BacktestingDispatcher scheduler with symbolic job/event timestamps, "
+                          "solver-chosen insertion order; trace obligations discharged by z3",
+                text="2-3 jobs with symbolic times (before, between, equal to, after event times), every insertion order, "
+                     "jobs scheduled from handlers and from jobs, a raising job, max_concurrent 1..2: each job runs exactly "
+                     "once with now >= when, in time order, after earlier events and before later ones.",
+                note=_DISP_NOTE),
+    "C14": dict(level="fault_enumeration", ref="DESIGN.md §5 C14",
+                technique="solver-enumerated fault scripts (failing phase x producer x ending x handler duration, symbolic "
+                          "max_concurrent) executed on the real dispatchers on a virtual-time asyncio loop",
+                text="Every feasible fault script within the bounds runs the real dispatcher code: init-before-main, "
+                     "finalize exactly once, run() returns / raises the producer's error / CancelledError and never an "
+                     "internal error, prompt end, events+jobs in flight <= max_concurrent (z3 over symbolic "
+                     "max_concurrent), fault isolation, log record factory restored.",
+                note="one fault per run; virtual clock; " + _DISP_NOTE),
+    "C15": dict(level="model_checking", ref="DESIGN.md §5 C15",
+                technique="symbolic execution of the real RealtimeDispatcher on a virtual-time loop with symbolic event/job "
+                          "instants relative to the clock",
+                text="Three symbolic instants (events of one or two sources and a job) anywhere in a 90 ms window around "
+                     "the start, 30 loop iterations: nothing starts before its time, every due event/job is dispatched, "
+                     "per-source order, out-of-order events dropped and reported (and only those), idle handlers only "
+                     "when nothing is being handled.",
+                note="virtual clock substituted for utc_now and the loop clock; " + _DISP_NOTE),
+})
+for _p in CHECKS:
+    NOT_APPLICABLE.pop(_p, None)
